@@ -6,6 +6,8 @@ package main
 
 import (
 	"fmt"
+	"sync/atomic"
+	"time"
 	"go/constant"
 	"go/token"
 	"go/types"
@@ -89,6 +91,7 @@ type Exec struct {
 	ghostT    map[string]types.Type
 	concLimit int
 	emit      func(prefix []int)
+	abort     *int32 // set by the driver: stop this path as soon as possible
 	opts      *RunOpts
 	curFrame  *Frame
 	callLog   []string
@@ -165,6 +168,17 @@ func (ex *Exec) RunPath(fn *ssa.Function, prefix []int) (res *PathResult) {
 			switch e := r.(type) {
 			case pathEnd:
 				res.End = e.reason
+				if strings.HasPrefix(e.reason, "blocked") {
+					// a sequential harness that blocks can never continue: report it with a witness
+					rec := AssertRec{Name: "no-deadlock", Status: "violated", Detail: e.reason, Prefix: append([]int{}, ex.decisions[:ex.decIdx]...)}
+					if cr := ex.sess.Check(nil, true); cr.Res == "sat" {
+						rec.Model = cr.Model
+						res.Asserts = append(res.Asserts, rec)
+					} else if cr.Res != "unsat" {
+						rec.Status = "unknown"
+						res.Asserts = append(res.Asserts, rec)
+					}
+				}
 			case *goPanic:
 				res.End = "panic"
 				res.Panic = e.desc
@@ -250,6 +264,9 @@ func pcKey(pc []*Term, extra *Term) string {
 func (ex *Exec) feasible(extra *Term) bool {
 	if extra.IsFalse() {
 		return false
+	}
+	if ex.abort != nil && atomic.LoadInt32(ex.abort) != 0 {
+		panic(pathEnd{"aborted"})
 	}
 	if ex.pcSet[extra.ID] && !ex.pcDirty {
 		return true
@@ -413,7 +430,11 @@ func (ex *Exec) concInt(t *Term, what string) int {
 	}
 	var vals []int
 	var block []*Term
+	t0 := time.Now()
 	for {
+		if time.Since(t0) > 90*time.Second {
+			panic(unsupported(fmt.Sprintf("concretise %s: enumeration of feasible values exceeded 90 s (%d found)", what, len(vals))))
+		}
 		cr := ex.sess.Check(append([]*Term{ex.tb.Mention(t)}, block...), true)
 		if cr.Res == "unsat" {
 			break
@@ -643,6 +664,9 @@ func (ex *Exec) runBlock(fr *Frame, block, prev *ssa.BasicBlock) (*ssa.BasicBloc
 		ex.steps++
 		if ex.steps > ex.maxSteps {
 			panic(unsupported("step budget exceeded"))
+		}
+		if ex.abort != nil && ex.steps&63 == 0 && atomic.LoadInt32(ex.abort) != 0 {
+			panic(pathEnd{"aborted"})
 		}
 		switch ins := ins.(type) {
 		case *ssa.Phi, *ssa.DebugRef:
